@@ -52,7 +52,13 @@ theorem QSame.inv {cfg : Cfg} {d : DST} {A Lmax : Nat} {oa : List Args} {b : Boo
    by rw [h.p.isOpen, h.p.offc, h.p.at_]; exact hi.oc, by rw [h.p.isOpen, h.p.at_, h.p.len]; exact hi.cl,
    h.en.trans hi.en, h.tg.trans hi.tg, h.p.oa.trans hi.hoa, by rw [h.p.sb]; exact hi.sb⟩
 
-theorem QSame.ev (s : St) (e : Ev) : QSame s (s.ev e) := ⟨PSame.ev s e, rfl, rfl⟩
+theorem QSame.ev (s : St) (e : Ev) (h : Neutral e := by exact ⟨fun _ => rfl, fun _ _ => rfl⟩) : QSame s (s.ev e) :=
+  ⟨PSame.ev s e h, rfl, rfl⟩
+
+/-- the invariant does not look at the log -/
+theorem QInv.ev {cfg : Cfg} {d : DST} {A Lmax : Nat} {oa : List Args} {b : Bool} {s : St} (hi : QInv cfg d A Lmax oa b s)
+    (e : Ev) : QInv cfg d A Lmax oa b (s.ev e) :=
+  ⟨hi.nh, hi.good, hi.pkt, hi.at_, hi.sv, hi.oc, hi.cl, hi.en, hi.tg, hi.hoa, hi.sb⟩
 theorem QSame.setFlag (s : St) (b : Bool) : QSame s (s.setFlag b) := ⟨PSame.setFlag s b, rfl, rfl⟩
 theorem QSame.setUseCur (s : St) (b : Bool) : QSame s (s.setUseCur b) := ⟨PSame.setUseCur s b, rfl, rfl⟩
 theorem QSame.setCurTs (s : St) (v : Nat) : QSame s (s.setCurTs v) := ⟨PSame.setCurTs s v, rfl, rfl⟩
@@ -68,19 +74,11 @@ theorem cbEnter_qsame (k : CbKind) (s : St) (htg : s.p.toggles = []) : QSame s (
   · unfold cbEnter
     simp only [St.setPlat, St.ev, htg, List.lookup_nil]
 
-theorem cbClock_qsame (clk : Clock) (s : St) (htg : s.p.toggles = []) : QSame s (cbClock clk s).2 := by
-  have h1 := cbEnter_qsame .clock s htg
-  unfold cbClock
-  simp only
-  generalize cbEnter .clock s = s1 at h1
-  exact h1.trans ⟨⟨rfl, rfl, rfl, rfl, rfl, rfl, rfl, rfl, rfl, rfl⟩, rfl, rfl⟩
+theorem cbClock_qsame (clk : Clock) (s : St) (htg : s.p.toggles = []) : QSame s (cbClock clk s).2 :=
+  ⟨cbClock_psame clk s, (cbEnter_qsame .clock s htg).en, (cbEnter_qsame .clock s htg).tg⟩
 
-theorem cbFull_qsame (s : St) (htg : s.p.toggles = []) : QSame s (cbFull s).2 := by
-  have h1 := cbEnter_qsame .full s htg
-  unfold cbFull
-  simp only
-  generalize cbEnter .full s = s1 at h1
-  exact h1.trans ⟨⟨rfl, rfl, rfl, rfl, rfl, rfl, rfl, rfl, rfl, rfl⟩, rfl, rfl⟩
+theorem cbFull_qsame (s : St) (htg : s.p.toggles = []) : QSame s (cbFull s).2 :=
+  ⟨cbFull_psame s, (cbEnter_qsame .full s htg).en, (cbEnter_qsame .full s htg).tg⟩
 
 theorem preambleTs_qsame (d : DST) (ft : Option Scalar) (s : St) (htg : s.p.toggles = []) :
     QSame s (preambleTs d ft s).2 := by
@@ -401,7 +399,7 @@ theorem traceWrite_qinv (e : ERT) (he : e ∈ d.erts) (args : Args) (hargs : Arg
       · exact QSame.ev _ _
       · exact QSame.refl _
     generalize (if d.feat.erTs.isSome = true then s1.ev (.tsWrite "rec" s1.c.curLastEventTs) else s1) = s2 at h3
-    have h4 := commit_qinv cfg d A Lmax oa hcfg hsmall _ ((QSame.ev s2 (.recDone e.name s.c.at_ s2.c.at_)).inv (h3.inv h1))
+    have h4 := commit_qinv cfg d A Lmax oa hcfg hsmall _ ((h3.inv h1).ev (.recDone e.name s.c.at_ s2.c.at_))
     split
     · exact h4
     · exact (QSame.setFlag _ false).inv h4
